@@ -991,8 +991,12 @@ func (r *Runner) ensureStorage() error {
 	if r.Runstackpos < r.runtrackcount*4 {
 		doubleIntSlice(&r.runstack, &r.Runstackpos)
 	}
-	if r.Runtrackpos < r.runtrackcount*4 && !r.growTrack() {
-		return ErrBacktrackingStackLimit
+	// A growth step that is capped by the limit can leave less than the required room:
+	// keep growing until there is enough, or fail if the limit does not allow it.
+	for r.Runtrackpos < r.runtrackcount*4 {
+		if !r.growTrack() {
+			return ErrBacktrackingStackLimit
+		}
 	}
 	return nil
 }
